@@ -34,7 +34,8 @@ def topologies(n, b):
 
 # label tuples: same order type as indices / an order that contradicts numeric reading, no '0'
 LABELS_PLAIN = ("0", "1", "2", "3", "4", "5", "6", "7", "8", "9")
-LABELS_ODD = ("a", "B", "9", "10", "_x", "Zz", "b2")     # sorted: '10'<'9'<'B'<'Zz'<'_x'<'a'<'b2'
+# nested on purpose: 'a' is part of 'Ba' and 'b2a', '9' of '109' (substring tests instead of equality show up in either direction)
+LABELS_ODD = ("a", "Ba", "9", "109", "_x", "Zz", "b2a")     # sorted: '109'<'9'<'Ba'<'Zz'<'_x'<'a'<'b2a'
 
 # value palettes (distinct per branch position)
 P_REAL = [2, 3, 5, 7, 11, 13, 17, 19, 23, 29, 31, 37, 41, 43, 47, 53]
@@ -49,7 +50,13 @@ SRC_EQ = [1] * 8
 # wide palette: bench values over eighteen decades (judged only where binary64 can determine the solution, see common.tableau_condition)
 P_WIDE = ["1/1000000000", 4700, "22/1000000", 1000000, "3/100", 330, "1/10000000", 56000, 8, "47/100000", 120000, "1/1000", 2200, 15, "68/10000", 910000000]
 
+# extreme palette: values next to the limits where "almost zero" shortcuts bite (1 pOhm ... 1 TOhm, 1 nV ... 5 GV); used for
+# structural judgements only (which branches survive, with which ids, terminals and values)
+P_XT = ["1/1000000000000", 1000000000000, "3/10000000000", 30000000000, "1/100000000", 200000000, "7/1000000000", 5000000000] * 2
+SRC_XT = ["1/1000000000", 5000000000, "-1/10000000000", -20000000000, "3/100000000", 700000000, "1/1000000000000", 9000000000]
+
 PALETTES = {
+    "xt": (P_XT, SRC_XT),
     "eq": (P_EQ, SRC_EQ),
     "wide": (P_WIDE, SRC_REAL),
     "real": (P_REAL, SRC_REAL),
